@@ -1,0 +1,48 @@
+//go:build verif
+
+package comdoc
+
+import "os"
+
+// Verification hooks (build tag "verif"): add-only accessors for the unexported allocation layer.
+
+// VerifSynthetic builds a writable ComDoc around the given in-memory tables (no file is parsed).
+// The single directory entry is the root storage.
+func VerifSynthetic(f *os.File, sectorSize, shortSectorSize int, sat, ssat []SecID, rootStart SecID, rootSize uint32) *ComDoc {
+	r := &ComDoc{
+		File:            f,
+		Header:          &Header{MinStdStreamSize: 4096, Version: 3},
+		SectorSize:      sectorSize,
+		ShortSectorSize: shortSectorSize,
+		SAT:             sat,
+		SSAT:            ssat,
+		Files:           make([]DirEnt, 1),
+		sectorBuf:       make([]byte, sectorSize),
+		writer:          f,
+	}
+	if sectorSize < 512 {
+		r.FirstSector = 512
+	} else {
+		r.FirstSector = int64(sectorSize)
+	}
+	r.Files[0].Type = DirRoot
+	r.Files[0].NextSector = rootStart
+	r.Files[0].StreamSize = rootSize
+	r.Files[0].LeftChild, r.Files[0].RightChild, r.Files[0].StorageRoot = -1, -1, -1
+	return r
+}
+
+func (r *ComDoc) VerifMakeFreeSectors(count int, short bool) []SecID {
+	return r.makeFreeSectors(count, short)
+}
+
+func VerifFreeSectors(sat []SecID, sector SecID) { freeSectors(sat, sector) }
+
+func (r *ComDoc) VerifAddStream(contents []byte, short bool) (SecID, error) {
+	return r.addStream(contents, short)
+}
+
+func (r *ComDoc) VerifRootFiles() []int  { return append([]int(nil), r.rootFiles...) }
+func (r *ComDoc) VerifRootStorage() int  { return r.rootStorage }
+func (r *ComDoc) VerifMsatList() []SecID { return append([]SecID(nil), r.msatList...) }
+func (r *ComDoc) VerifChanged() bool     { return r.changed }
